@@ -17,7 +17,8 @@ pub struct BlockModeError;
 pub struct CborSerError;
 pub struct CborDeError;
 pub struct ParseIntError;
-pub struct TryFromSliceError;
+pub use std::array::TryFromSliceError;
+#[verifier::external_type_specification] #[verifier::external_body] pub struct ExTryFromSliceError(std::array::TryFromSliceError);
 
 pub assume_specification<T, F: FnOnce() -> Option<T>> [Option::<T>::or_else] (o: Option<T>, f: F) -> (r: Option<T>)
     requires o is None ==> f.requires(()),
@@ -85,3 +86,9 @@ impl Write for Vec<u8> {
     #[verifier::external_body] fn write_all(&mut self, b: &[u8]) -> (r: Result<(), IoError>) { unimplemented!() }
     #[verifier::external_body] fn write(&mut self, b: &[u8]) -> (r: Result<usize, IoError>) { unimplemented!() }
 }
+// ---- <[u8; N] as TryFrom<&[u8]>> (rule R19): Ok exactly when the slice has N elements ----
+pub trait TryIntoArrV<const N: usize>: Sized { spec fn tia(&self) -> Seq<u8>;
+    fn try_into_v(self) -> (r: Result<[u8; N], TryFromSliceError>) ensures r is Ok <==> self.tia().len() == N, r is Ok ==> arr_view::<N>(r->Ok_0) == self.tia(); }
+pub open spec fn arr_view<const N: usize>(a: [u8; N]) -> Seq<u8> { a@ }
+impl<'a, const N: usize> TryIntoArrV<N> for &'a [u8] { open spec fn tia(&self) -> Seq<u8> { self@ }
+    #[verifier::external_body] fn try_into_v(self) -> (r: Result<[u8; N], TryFromSliceError>) { unimplemented!() } }
